@@ -240,7 +240,7 @@ func (e editBinding) Apply(ast *syntax.Ast) (int, error) {
 	if e.Pipeline == nil && ast.Call != nil &&
 		e.Call.File().FullPath == ast.Call.File().FullPath &&
 		e.callId == ast.Call.Id {
-		return e.apply(ast.Call.Bindings.List), nil
+		return e.apply(ast.Call.Bindings), nil
 	}
 	for _, pipe := range ast.Pipelines {
 		if pipe.Id == e.pipelineId &&
@@ -248,7 +248,7 @@ func (e editBinding) Apply(ast *syntax.Ast) (int, error) {
 			if e.Call != nil {
 				return e.applyToCalls(pipe.Calls), nil
 			} else {
-				return e.apply(pipe.Ret.Bindings.List), nil
+				return e.apply(pipe.Ret.Bindings), nil
 			}
 		}
 	}
@@ -259,21 +259,21 @@ func (e editBinding) applyToCalls(calls []*syntax.CallStm) int {
 	for _, call := range calls {
 		if call.Id == e.callId {
 			if e.Mods {
-				return e.apply(call.Modifiers.Bindings.List)
+				return e.apply(call.Modifiers.Bindings)
 			} else {
-				return e.apply(call.Bindings.List)
+				return e.apply(call.Bindings)
 			}
 		}
 	}
 	return 0
 }
 
-func (e editBinding) apply(bindings []*syntax.BindStm) int {
-	for _, bind := range bindings {
-		if bind.Id == e.bindingId {
-			bind.Exp = e.Exp
-			return 1
-		}
+func (e editBinding) apply(bindings *syntax.BindStms) int {
+	// If a wildcard supplies the binding, it becomes explicit.
+	if bind, _ := bindExplicitly(bindings,
+		e.bindingId, e.bindingId, e.Exp); bind != nil {
+		bind.Exp = e.Exp
+		return 1
 	}
 	return 0
 }
